@@ -190,6 +190,83 @@ def run(ctx):
         if bad and reported < 6 and bad[:40] not in seen:
             seen.add(bad[:40]); reported += 1
             ctx.violation('independent dissector: ' + bad, '=== replay\n' + '\n'.join(lines) + '\n--- ' + bad + '\n--- C++ output\n' + '\n'.join(l[:300] for l in lh[-2:]) + '\n')
+    # (4) RFC 4884 extension structures built through the API (one to four objects, payloads of every length 0..9, so objects of odd
+    #     size in front of others): the structure's own checksum, the length field locating it, the objects, and the outer checksum
+    es = []
+    for i in range(120 if quick else 2500):
+        cls, ty = rng.choice([('ICMP', 3), ('ICMP', 11), ('ICMP', 12), ('ICMPv6', 1), ('ICMPv6', 3)])
+        objs = [bytes(rng.randrange(256) for _ in range(rng.randrange(0, 10))) for _ in range(rng.randrange(1, 5))]
+        quoted = bytes(rng.randrange(1, 256) for _ in range(rng.choice([1, 20, 28, 127, 128, 129, 140])))          # an error message always quotes the offending datagram
+        lines = ['new ' + cls, 'set 0 type %d' % ty] + ['icmpext 0 x' + o.hex() for o in objs] + (['raw x' + quoted.hex()] if quoted else []) + ['ser']
+        es.append(('e%d' % i, lines, cls, objs, quoted))
+    eh = C.run_harness('h_pkt', [(sid, lines) for sid, lines, _, _, _ in es])
+    ctx.cov['evaluations'] += len(es)
+    for sid, lines, cls, objs, quoted in es:
+        lh = [l for l in eh.get(sid, []) if not l.startswith('!~')]
+        bad = None
+        if not lh or not lh[-1].startswith('S '):
+            bad = '%s with %d extension objects: %s' % (cls, len(objs), (lh[-1] if lh else '<none>')[:80])
+        else:
+            y = bytes.fromhex(lh[-1].split()[2][1:])
+            unit = 4 if cls == 'ICMP' else 8
+            ln = (y[5] if cls == 'ICMP' else y[4]) * unit
+            if ln == 0 and len(quoted) <= 128:
+                ln = 128          # RFC 4884 section 5.5 compatibility: no length attribute, the structure sits behind 128 octets
+            ext = y[8 + ln:]
+            if cls == 'ICMP' and D.csum16(y) != 0xffff:
+                bad = 'ICMP checksum of a message with extensions does not verify'
+            elif ln < max(128, len(quoted)) or y[8:8 + len(quoted)] != quoted or any(y[8 + len(quoted):8 + ln]):
+                bad = '%s length field %d does not locate the zero-padded quoted datagram (%d octets quoted)' % (cls, ln, len(quoted))
+            elif len(ext) < 4 or ext[0] >> 4 != 2:
+                bad = '%s: no RFC 4884 extension header behind the %d octets the length field announces' % (cls, ln)
+            elif D.csum16(ext) != 0xffff:
+                bad = '%s extension structure checksum does not verify (objects of %s octets)' % (cls, [len(o) for o in objs])
+            else:
+                off, got = 4, []
+                while off + 4 <= len(ext):
+                    ol = _st.unpack('>H', ext[off:off + 2])[0]
+                    if ol < 4 or off + ol > len(ext):
+                        got = None
+                        break
+                    got.append(ext[off + 4:off + ol]); off += ol
+                if got != objs:
+                    bad = '%s extension objects on the wire %s, objects added %s' % (cls, None if got is None else [g.hex() for g in got], [o.hex() for o in objs])
+                else:
+                    nontriv.add(tuple(lines))
+        if bad and reported < 8 and bad[:40] not in seen:
+            seen.add(bad[:40]); reported += 1
+            ctx.violation('independent dissector: ' + bad, '=== replay\n' + '\n'.join(lines) + '\n--- ' + bad + '\n--- C++ output\n' + '\n'.join(l[:300] for l in lh[-2:]) + '\n')
+    # (5) PPPoE under Ethernet: the EtherType is derived from the PPPoE stage (RFC 2516: 0x8863 for the discovery codes PADI/PADO/PADR/
+    #     PADS/PADT, 0x8864 for session data, code 0), whatever the session identifier; the payload length field covers tags / payload
+    ps = []
+    for i in range(100 if quick else 2000):
+        code = rng.choice([0, 0, 0x09, 0x07, 0x19, 0x65, 0xa7])
+        sess = rng.choice([0, 0, 1, 0x1234, 0xffff, rng.randrange(65536)])
+        tags = [(rng.choice([0x0101, 0x0102, 0x0103, 0x0104]), bytes(rng.randrange(256) for _ in range(rng.choice([0, 1, 4, 9])))) for _ in range(rng.randrange(0, 3))] if code else []
+        pl = bytes(rng.randrange(256) for _ in range(rng.choice([1, 2, 8, 40]))) if not code else b''
+        lines = ['new EthernetII', 'push PPPoE', 'set 1 code %d' % code, 'set 1 session_id %d' % sess]
+        lines += ['aopt 1 %d x%s' % (((t & 0xff) << 8) | (t >> 8), d.hex()) for t, d in tags] + (['raw x' + pl.hex()] if pl else []) + ['ser']
+        ps.append(('q%d' % i, lines, code, sess, tags, pl))
+    ph = C.run_harness('h_pkt', [(sid, lines) for sid, lines, _, _, _, _ in ps])
+    ctx.cov['evaluations'] += len(ps)
+    for sid, lines, code, sess, tags, pl in ps:
+        lh = [l for l in ph.get(sid, []) if not l.startswith('!~')]
+        bad = None
+        if not lh or not lh[-1].startswith('S '):
+            bad = 'EthernetII/PPPoE code %d: %s' % (code, (lh[-1] if lh else '<none>')[:80])
+        else:
+            y = bytes.fromhex(lh[-1].split()[2][1:])
+            et = _st.unpack('>H', y[12:14])[0]
+            body = b''.join(_st.pack('>HH', t, len(d)) + d for t, d in tags) + pl
+            if et != (0x8864 if code == 0 else 0x8863):
+                bad = 'PPPoE code 0x%02x with session id 0x%04x goes out with EtherType 0x%04x' % (code, sess, et)
+            elif y[14:20] != bytes([0x11, code]) + _st.pack('>HH', sess, len(body)) or y[20:20 + len(body)] != body or any(y[20 + len(body):]):
+                bad = 'PPPoE header / length field / tags on the wire differ from what was built: %s' % y[14:20 + len(body)].hex()[:80]
+            else:
+                nontriv.add(tuple(lines))
+        if bad and reported < 10 and bad[:30] not in seen:
+            seen.add(bad[:30]); reported += 1
+            ctx.violation('independent dissector: ' + bad, '=== replay\n' + '\n'.join(lines) + '\n--- ' + bad + '\n--- C++ output\n' + '\n'.join(l[:300] for l in lh[-2:]) + '\n')
     ctx.cov['distinct_nontrivial'] = len(nontriv)
     ctx.cov['traces_validated_against_impl'] = len(sums)
     ctx.cov['rule'] = ('(1) byte strings aimed at the folding boundaries (all-ones, alternating, odd lengths) through Utils::sum_range / crc32 against the model and independent references; '
